@@ -255,6 +255,27 @@ def use_after_release(ig, release_node, var):
     return None
 
 
+def bool_atom(atom, pol):
+    """normalise `x == false`, `x != true`, `true == x` ... to (x, polarity); other atoms are returned unchanged"""
+    from .graph import cond_atoms
+    for _ in range(4):
+        atom, pol = cond_atoms(atom, pol)
+        a = strip_cast(atom)
+        if isinstance(a, dict) and a.get("k") == "b" and a.get("op") in ("==", "!="):
+            l, r = strip_cast(a.get("l")), strip_cast(a.get("r"))
+            for x, c in ((l, r), (r, l)):
+                if isinstance(c, dict) and c.get("k") == "c" and str(c.get("v")) in ("0", "1", "true", "false"):
+                    cv = str(c.get("v")) in ("1", "true")
+                    same = (a["op"] == "==") == cv
+                    atom, pol = x, (pol if same else not pol)
+                    break
+            else:
+                return atom, pol
+            continue
+        return atom, pol
+    return atom, pol
+
+
 def cmp_parts(atom):
     """(op, lhs, rhs) of a comparison atom, also through overloaded operators"""
     a = strip_cast(atom)
